@@ -21,9 +21,10 @@
 (* replayed into the real code.                                                               *)
 EXTENDS Integers, Sequences, FiniteSets, TLC, Json
 
-CONSTANTS Exs, Typs, Levs, Modes, Fees, Bals, Warms, Rts, Sims,   \* the configuration lattice
+CONSTANTS Exs, Typs, Levs, Modes, Fees, Bals, Warms, Rts, Sims, Hps,   \* the configuration lattice (Hps: which
+                                                  \* hyperparameters dict is passed: none / complete / strict subset)
           Outcomes,                                               \* where an earlier call may end
-          PEx, PTyp, PLev, PMode, PFee, PBal, PWarm, PRt, PSim,   \* the probe's arguments
+          PEx, PTyp, PLev, PMode, PFee, PBal, PWarm, PRt, PSim, PHp,   \* the probe's arguments
           MaxCalls,            \* number of earlier calls
           MaxFlips,            \* an earlier call differs from the probe in at most that many dimensions
           CacheInvalidated,    \* TRUE: injecting a configuration drops the memo         (code: never)
@@ -31,9 +32,9 @@ CONSTANTS Exs, Typs, Levs, Modes, Fees, Bals, Warms, Rts, Sims,   \* the configu
           SharedVarsReset,     \* TRUE: store.reset() empties store.vars                  (code: never)
           Export               \* TRUE: print one HIST line per finished probe
 
-VARIABLES cache, cfg, drivers, router, store, phase, a, ncalls, isProbe, seen, pre, hist, excs
-vars == <<cache, cfg, drivers, router, store, phase, a, ncalls, isProbe, seen, pre, hist, excs>>
-View == <<cache, cfg, drivers, router, store, phase, a, ncalls, isProbe, seen, pre>>
+VARIABLES cache, cfg, drivers, router, store, phase, a, ncalls, isProbe, seen, pre, used, hist, excs
+vars == <<cache, cfg, drivers, router, store, phase, a, ncalls, isProbe, seen, pre, used, hist, excs>>
+View == <<cache, cfg, drivers, router, store, phase, a, ncalls, isProbe, seen, pre, used>>
 
 Absent == "absent"      \* key not in CACHED_CONFIG
 NoneV  == "none"        \* Python None (key missing in the config dict, get_config's default)
@@ -41,10 +42,10 @@ Uninit == {"uninit"}    \* api.drivers while jesse.services.api is not imported 
 NA     == "n/a"
 
 Probe == [ex |-> PEx, typ |-> PTyp, lev |-> PLev, mode |-> PMode, fee |-> PFee, bal |-> PBal,
-          warm |-> PWarm, rt |-> PRt, sim |-> PSim, out |-> "ok"]
-Dims == {"ex", "typ", "lev", "mode", "fee", "bal", "warm", "rt", "sim"}
+          warm |-> PWarm, rt |-> PRt, sim |-> PSim, hp |-> PHp, out |-> "ok"]
+Dims == {"ex", "typ", "lev", "mode", "fee", "bal", "warm", "rt", "sim", "hp"}
 Vals(d) == CASE d = "ex" -> Exs [] d = "typ" -> Typs [] d = "lev" -> Levs [] d = "mode" -> Modes [] d = "fee" -> Fees
-             [] d = "bal" -> Bals [] d = "warm" -> Warms [] d = "rt" -> Rts [] d = "sim" -> Sims
+             [] d = "bal" -> Bals [] d = "warm" -> Warms [] d = "rt" -> Rts [] d = "sim" -> Sims [] d = "hp" -> Hps
 Flips(x) == Cardinality({d \in Dims : x[d] # Probe[d]})
 \* all argument records that differ from the probe in at most n dimensions (built, not filtered: the full
 \* lattice has tens of thousands of points)
@@ -74,7 +75,7 @@ NoExchange == [name |-> NoneV, typ |-> NoneV, lev |-> NoneV, mode |-> NoneV, fee
 NoSeen == [driver |-> NA, typ |-> NA, lev |-> NA, mode |-> NA, feeRate |-> NA, feeTrade |-> NA, bal |-> NA,
            warmSize |-> NA, warmVisible |-> NA, rt |-> <<NA, NA>>, shared |-> NA]
 Null == [ex |-> NA, typ |-> NA, lev |-> NA, mode |-> NA, fee |-> NA, bal |-> NA, warm |-> NA, rt |-> NA,
-         sim |-> NA, out |-> NA]
+         sim |-> NA, hp |-> NA, out |-> NA]
 
 \* store/state_exchanges.py: ExchangesState.__init__ for the one considered exchange.  The account type,
 \* the leverage and its mode go through the memo, balance and fee are read from the dict directly.
@@ -92,7 +93,7 @@ ExchangeFill(c, g, e) ==
 Init == /\ cache = EmptyCache /\ cfg = DefaultCfg /\ drivers = Uninit /\ router = <<NoneV, NoneV>>
         /\ store = [exch |-> NoExchange, warmInj |-> NoneV, shared |-> "empty", traded |-> FALSE]
         /\ phase = "idle" /\ a = Null /\ ncalls = 0 /\ isProbe = FALSE /\ seen = NoSeen
-        /\ pre = <<>> /\ hist = <<>> /\ excs = <<>>
+        /\ pre = <<>> /\ used = <<NA, NA>> /\ hist = <<>> /\ excs = <<>>
 
 \* ---- the property, independent of the shape above: in its simulation the probe reads its arguments
 Sees(s, c) ==
@@ -147,7 +148,10 @@ Begin(x, probe) ==
   /\ cfg' = [cfg EXCEPT !.tmode = "backtest"]
   /\ hist' = IF probe THEN hist ELSE Append(hist, x)
   \* the process state the probe starts in (kept so that each one is exported with its own history)
-  /\ pre' = IF probe THEN <<cache, cfg, drivers, router, store, ncalls>> ELSE pre
+  /\ pre' = IF probe THEN <<cache, cfg, drivers, router, store, ncalls, used>> ELSE pre
+  \* ghost: the simulator and the kind of hyperparameters dict of the latest earlier call.  Neither is kept by
+  \* the process; remembering them makes TLC export (and the harness replay) a history for each of them
+  /\ used' = IF probe THEN used ELSE <<x.sim, x.hp>>
   /\ phase' = "mode" /\ UNCHANGED <<cache, drivers, router, store, seen, excs>>
 
 \* ---- l.100: set_config(_format_config(config)) (config.py l.110-146) -----------------------------
@@ -158,13 +162,13 @@ SetConfig ==
                         !.mode[a.ex] = IF a.typ = "fut" THEN a.mode ELSE NoneV,
                         !.warm = a.warm]
   /\ cache' = IF CacheInvalidated THEN EmptyCache ELSE cache
-  /\ phase' = "configured" /\ UNCHANGED <<drivers, router, store, a, ncalls, isProbe, seen, pre, hist, excs>>
+  /\ phase' = "configured" /\ UNCHANGED <<drivers, router, store, a, ncalls, isProbe, seen, pre, used, hist, excs>>
 
 \* ---- l.103: router.initiate, first half: set_routes / set_data_candles --------------------------
 SetRoutes ==
   /\ Goes("configured")
   /\ router' = <<a.ex, a.rt>>
-  /\ phase' = "routed" /\ UNCHANGED <<cache, cfg, drivers, store, a, ncalls, isProbe, seen, pre, hist, excs>>
+  /\ phase' = "routed" /\ UNCHANGED <<cache, cfg, drivers, store, a, ncalls, isProbe, seen, pre, used, hist, excs>>
 
 \* ---- second half: store.reset() = install_routes() + a new store (store/__init__.py l.93-115) ---
 NewStore(c, g, e) == [exch |-> ExchangeObj(c, g, e), warmInj |-> NoneV,
@@ -175,7 +179,7 @@ StoreResetAtStart ==
      IN /\ cfg' = g
         /\ store' = NewStore(cache, g, router[1])
         /\ cache' = ExchangeFill(cache, g, router[1])
-  /\ phase' = "reset" /\ UNCHANGED <<drivers, router, a, ncalls, isProbe, seen, pre, hist, excs>>
+  /\ phase' = "reset" /\ UNCHANGED <<drivers, router, a, ncalls, isProbe, seen, pre, used, hist, excs>>
 
 \* ---- l.105-122: validate_routes, init_storage, spacing assertion.  With DriversRebuilt the session
 \* (re-)initiates the API drivers for its own exchanges right after router.initiate (importing
@@ -186,13 +190,13 @@ InitStorage ==
      THEN /\ drivers' = (drivers \ Uninit) \cup {Lookup0(cache, cfg, "consEx")}
           /\ cache' = Fill0(cache, cfg, "consEx")
      ELSE UNCHANGED <<drivers, cache>>
-  /\ phase' = "storage" /\ UNCHANGED <<cfg, router, store, a, ncalls, isProbe, seen, pre, hist, excs>>
+  /\ phase' = "storage" /\ UNCHANGED <<cfg, router, store, a, ncalls, isProbe, seen, pre, used, hist, excs>>
 
 \* ---- l.124-137: deep copies, warm-up candles into the store -------------------------------------
 InjectWarmup ==
   /\ Goes("storage")
   /\ store' = [store EXCEPT !.warmInj = a.warm]
-  /\ phase' = "warmed" /\ UNCHANGED <<cache, cfg, drivers, router, a, ncalls, isProbe, seen, pre, hist, excs>>
+  /\ phase' = "warmed" /\ UNCHANGED <<cache, cfg, drivers, router, a, ncalls, isProbe, seen, pre, used, hist, excs>>
 
 \* ---- simulator -> _prepare_routes: the first Broker of the process imports services.api, whose API()
 \* builds Sandbox drivers for get_config('app.considering_exchanges') - once (api.py l.9-32)
@@ -201,7 +205,7 @@ PrepareRoutes ==
   /\ IF drivers = Uninit
      THEN /\ drivers' = {Lookup0(cache, cfg, "consEx")} /\ cache' = Fill0(cache, cfg, "consEx")
      ELSE UNCHANGED <<drivers, cache>>
-  /\ phase' = "prepared" /\ UNCHANGED <<cfg, router, store, a, ncalls, isProbe, seen, pre, hist, excs>>
+  /\ phase' = "prepared" /\ UNCHANGED <<cfg, router, store, a, ncalls, isProbe, seen, pre, used, hist, excs>>
 
 \* ---- first strategy step: indicators slice their candles to get_config('env.data.warmup_candles_num');
 \* what the strategy can see of its account; store.vars is written
@@ -215,21 +219,21 @@ FirstStep ==
                                !.rt = router, !.shared = store.shared]
              ELSE seen
   /\ store' = [store EXCEPT !.shared = "dirty"]
-  /\ phase' = "stepping" /\ UNCHANGED <<cfg, drivers, router, a, ncalls, isProbe, pre, hist, excs>>
+  /\ phase' = "stepping" /\ UNCHANGED <<cfg, drivers, router, a, ncalls, isProbe, pre, used, hist, excs>>
 
 \* ---- entry order: api.market_order returns None when the exchange has no driver (api.py l.43) ---
 Submit ==
   /\ Goes("stepping")
   /\ store' = [store EXCEPT !.traded = (a.ex \in drivers)]
   /\ seen' = IF isProbe THEN [seen EXCEPT !.driver = IF a.ex \in drivers THEN "yes" ELSE "no"] ELSE seen
-  /\ phase' = "trading" /\ UNCHANGED <<cache, cfg, drivers, router, a, ncalls, isProbe, pre, hist, excs>>
+  /\ phase' = "trading" /\ UNCHANGED <<cache, cfg, drivers, router, a, ncalls, isProbe, pre, used, hist, excs>>
 
 \* ---- a trade closes; a strategy that looks at self.metrics makes ClosedTrade.fee read the memoised
 \* fee (ClosedTrade.py l.96) already now
 CloseTrade ==
   /\ Goes("trading")
   /\ cache' = IF store.traded /\ a.out = "closed" THEN Fill(cache, cfg, "fee", a.ex) ELSE cache
-  /\ phase' = "closed" /\ UNCHANGED <<cfg, drivers, router, store, a, ncalls, isProbe, seen, pre, hist, excs>>
+  /\ phase' = "closed" /\ UNCHANGED <<cfg, drivers, router, store, a, ncalls, isProbe, seen, pre, used, hist, excs>>
 
 \* ---- _generate_outputs: metrics over the closed trades read ClosedTrade.fee ---------------------
 Outputs ==
@@ -237,13 +241,13 @@ Outputs ==
   /\ cache' = IF store.traded THEN Fill(cache, cfg, "fee", a.ex) ELSE cache
   /\ seen' = IF isProbe /\ store.traded
              THEN [seen EXCEPT !.feeTrade = Lookup(cache, cfg, "fee", a.ex)] ELSE seen
-  /\ phase' = "done" /\ UNCHANGED <<cfg, drivers, router, store, a, ncalls, isProbe, pre, hist, excs>>
+  /\ phase' = "done" /\ UNCHANGED <<cfg, drivers, router, store, a, ncalls, isProbe, pre, used, hist, excs>>
 
 \* ---- l.179: reset_config(): config = backup_config.copy() - a shallow copy of a shallow copy; every
 \* value set above lives in the shared nested dicts and survives
 ResetConfig ==
   /\ Goes("done")
-  /\ phase' = "resetcfg" /\ UNCHANGED <<cache, cfg, drivers, router, store, a, ncalls, isProbe, seen, pre, hist, excs>>
+  /\ phase' = "resetcfg" /\ UNCHANGED <<cache, cfg, drivers, router, store, a, ncalls, isProbe, seen, pre, used, hist, excs>>
 
 \* ---- l.180: store.reset() -----------------------------------------------------------------------
 Return(e) == /\ a' = Null /\ excs' = IF isProbe THEN excs ELSE Append(excs, e)
@@ -255,13 +259,13 @@ StoreResetAtEnd ==
   /\ Goes("resetcfg")
   /\ store' = NewStore(cache, cfg, router[1])
   /\ cache' = ExchangeFill(cache, cfg, router[1])
-  /\ Return("none") /\ UNCHANGED <<cfg, drivers, router, ncalls, isProbe, seen, pre, hist>>
+  /\ Return("none") /\ UNCHANGED <<cfg, drivers, router, ncalls, isProbe, seen, pre, used, hist>>
   /\ Emit
 
 \* ---- an exception leaves _isolated_backtest: nothing is undone ----------------------------------
 Crash ==
   /\ Aborts
-  /\ Return("exc") /\ UNCHANGED <<cache, cfg, drivers, router, store, ncalls, isProbe, seen, pre, hist>>
+  /\ Return("exc") /\ UNCHANGED <<cache, cfg, drivers, router, store, ncalls, isProbe, seen, pre, used, hist>>
 
 EarlierCall == phase = "idle" /\ \E x \in Menu : Begin(x, FALSE)
 ProbeCall   == phase = "idle" /\ Begin(Probe, TRUE)
